@@ -414,11 +414,38 @@ fn suite_lists(out: &mut Out, thorough: bool) {
     }
 }
 
+fn shift_free(t: &Term, b: usize, depth: usize) -> Term {
+    match t {
+        Var(i) => Var(if *i > depth { *i + b } else { *i }),
+        Abs(x) => abs(shift_free(x, b, depth + 1)),
+        App(p) => app(shift_free(&p.0, b, depth), shift_free(&p.1, b, depth)),
+    }
+}
+fn unshift_free(t: &Term, b: usize, depth: usize) -> Option<Term> {
+    Some(match t {
+        Var(i) => {
+            if *i > depth {
+                if *i > depth + b {
+                    Var(*i - b)
+                } else {
+                    return None;
+                }
+            } else {
+                Var(*i)
+            }
+        }
+        Abs(x) => abs(unshift_free(x, b, depth + 1)?),
+        App(p) => app(unshift_free(&p.0, b, depth)?, unshift_free(&p.1, b, depth)?),
+    })
+}
+
 fn suite_laws(out: &mut Out, thorough: bool, rng: &mut Rng) {
     let ords = [NOR, HNO, APP, HAP];
     let lazy = [NOR, HNO];
     // payloads: free variables and random closed normal terms
-    let mut payload_sets: Vec<Vec<Term>> = vec![vec![Var(1), Var(2), Var(3), Var(4)], vec![Var(3), Var(1), Var(1), Var(2)]];
+    let mut payload_sets: Vec<Vec<Term>> = vec![vec![Var(1), Var(2), Var(3), Var(4)], vec![Var(3), Var(1), Var(1), Var(2)],
+        // the inert UD constant as a payload, bare and inside a compound payload
+        vec![Var(0), Var(2), abs(app(Var(1), Var(0))), Var(0)], vec![app(Var(1), Var(0)), Var(0), Var(2), abs(Var(0))]];
     for _ in 0..(if thorough { 12 } else { 4 }) {
         let mut set = Vec::new();
         for _ in 0..4 {
@@ -433,8 +460,33 @@ fn suite_laws(out: &mut Out, thorough: bool, rng: &mut Rng) {
     let t = |x: &Term| V::T(x.clone());
     for ps in &payload_sets {
         let (x, y, z, w) = (&ps[0], &ps[1], &ps[2], &ps[3]);
+        let first = std::ptr::eq(ps, &payload_sets[0]);
         let law = |out: &mut Out, name: &str, ct: Term, args: Vec<V>, expected: Term, orders: &[Order]| {
             run(out, "C17", name, &ct, &args, &V::T(expected), orders, "nf");
+            if first {
+                // the same instance with every free index of the payloads moved far away (2^32 +- 1): the result moves along
+                let mut small = ct.clone();
+                for a in &args {
+                    small = app(small, enc(a));
+                }
+                for o in [NOR, HAP] {
+                    if !orders.contains(&o) {
+                        continue;
+                    }
+                    let mut base = small.clone();
+                    if catch_unwind(AssertUnwindSafe(|| base.reduce(o, 5000))).map(|c| c >= 5000).unwrap_or(true) {
+                        continue;
+                    }
+                    for bb in [(1usize << 32) - 1, 1 << 32, (1 << 32) + 1, (1 << 63) + 3] {
+                        let mut big = shift_free(&small, bb, 0);
+                        let ok = match catch_unwind(AssertUnwindSafe(|| big.reduce(o, 5000))) {
+                            Ok(_) => unshift_free(&big, bb, 0).map(|u| u == base).unwrap_or(false),
+                            Err(_) => false,
+                        };
+                        writeln!(out.w, "metalaw\t{}\t{}\t{}\t{}", name, order_name(o), bb, ok).unwrap();
+                    }
+                }
+            }
         };
         law(out, "combinators_I", cb::I(), vec![t(x)], x.clone(), &ords);
         law(out, "combinators_K", cb::K(), vec![t(x), t(y)], x.clone(), &ords);
@@ -541,6 +593,41 @@ fn probe_nf(t: &mut Term) -> bool {
     t.reduce(NOR, 200) < 200 && size(t) < 60
 }
 
+fn suite_bigctor(out: &mut Out) {
+    // the numeral and list constructors are loops: large arguments do not need a large stack
+    {
+        let h = std::thread::Builder::new().stack_size(512 << 10).spawn(|| {
+            let mut res = Vec::new();
+            let n = 200_000usize;
+            let t = n.into_church();
+            res.push(format!("bigctor\tchurch\t{}\t{}", n, matches!(t, Abs(_))));
+            std::mem::forget(t);
+            let t = n.into_scott();
+            res.push(format!("bigctor\tscott\t{}\t{}", n, matches!(t, Abs(_))));
+            std::mem::forget(t);
+            let v: Vec<usize> = (0..n).map(|k| k % 3).collect();
+            let t = IntoChurchList::into_church(v.clone());
+            res.push(format!("bigctor\tlist-church\t{}\t{}", n, matches!(t, Abs(_))));
+            std::mem::forget(t);
+            let t = IntoScottList::into_scott(v.clone());
+            res.push(format!("bigctor\tlist-scott\t{}\t{}", n, matches!(t, Abs(_))));
+            std::mem::forget(t);
+            let t = v.iter().map(|k| k.into_church()).collect::<Vec<Term>>().into_pair_list();
+            res.push(format!("bigctor\tlist-pair\t{}\t{}", n, matches!(t, Abs(_))));
+            std::mem::forget(t);
+            res
+        });
+        match h.unwrap().join() {
+            Ok(lines) => {
+                for l in lines {
+                    writeln!(out.w, "{}", l).unwrap();
+                }
+            }
+            Err(_) => writeln!(out.w, "bigctor\tpanic\t0\tfalse").unwrap(),
+        }
+    }
+}
+
 fn suite_convert(out: &mut Out, thorough: bool) {
     // C12: constructors
     let maxn = if thorough { 300 } else { 120 };
@@ -629,6 +716,24 @@ fn suite_convert(out: &mut Out, thorough: bool) {
               (1 << 48) - 1, 1 << 62, (1 << 63) + 1, usize::MAX - 1, usize::MAX] {
         writeln!(out.w, "bignum\tbinary\t{:b}\t{}\t{}", k, k, ser(&k.into_binary())).unwrap();
     }
+    // the Vec conversions do not inspect their elements: UD and open terms are elements like any other
+    for v in [vec![Var(0), 1.into_church(), Var(0)], vec![Var(3), abs(Var(2)), Var(0)], vec![app(Var(1), Var(0))]] {
+        let s = v.iter().map(ser).collect::<Vec<_>>().join(";");
+        let r = |f: &dyn Fn() -> Term| catch_unwind(AssertUnwindSafe(f)).map(|t| ser(&t)).unwrap_or("PANIC".to_string());
+        writeln!(out.w, "vecany\tfrom\t{}\t{}", s, r(&|| Term::from(v.clone()))).unwrap();
+        writeln!(out.w, "vecany\tpair\t{}\t{}", s, r(&|| v.clone().into_pair_list())).unwrap();
+        writeln!(out.w, "vecany\tchurch\t{}\t{}", s, r(&|| IntoChurchList::into_church(v.clone()))).unwrap();
+        writeln!(out.w, "vecany\tscott\t{}\t{}", s, r(&|| IntoScottList::into_scott(v.clone()))).unwrap();
+        writeln!(out.w, "vecany\tparigot\t{}\t{}", s, r(&|| IntoParigotList::into_parigot(v.clone()))).unwrap();
+    }
+    // app! applies its operands left to right even when they come out of an iterator
+    {
+        let stream = vec![lp::cons(), 1.into_church(), lp::nil()];
+        let mut it = stream.clone().into_iter();
+        let got = app!(it.next().unwrap(), it.next().unwrap(), it.next().unwrap());
+        writeln!(out.w, "apporder16\t{}\t{}", ser(&app(app(lp::cons(), 1.into_church()), lp::nil())), ser(&got)).unwrap();
+    }
+    suite_bigctor(out);
     // From conversions (closed payloads)
     for b in [false, true] {
         let t: Term = b.into();
@@ -674,6 +779,7 @@ fn main() {
                 "lists" => suite_lists(&mut out, thorough),
                 "laws" => suite_laws(&mut out, thorough, &mut rng),
                 "convert" => suite_convert(&mut out, thorough),
+                "deep" => suite_bigctor(&mut out),
                 _ => {
                     eprintln!("unknown suite {}", suite);
                     std::process::exit(2);
